@@ -1260,6 +1260,10 @@ fn annotation_cases() -> Vec<(String, String, String, RTy)> {
             ("let of todo", format!("fn an() {{ let v: {tt} = todo v }}"), f(vec![], t.clone())),
             ("lambda parameter, applied", format!("fn an(q) {{ let g = fn(z: {tt}) {{ z }} g(q) }}"), f(vec![t.clone()], t.clone())),
             ("lambda parameter, returned", format!("fn an() {{ fn(z: {tt}) {{ z }} }}"), f(vec![], f(vec![t.clone()], t.clone()))),
+            ("lambda parameter, body with a let", format!("fn an() {{ fn(z: {tt}) {{ let w = z w }} }}"), f(vec![], f(vec![t.clone()], t.clone()))),
+            ("lambda parameter, body with a case", format!("fn an() {{ fn(z: {tt}) {{ case z {{ w -> w }} }} }}"), f(vec![], f(vec![t.clone()], t.clone()))),
+            ("lambda parameter, body with a lambda", format!("fn an() {{ fn(z: {tt}) {{ fn(w) {{ #(w, z) }} }} }}"), f(vec![], f(vec![t.clone()], f(vec![Var("ww".into())], Tuple(vec![Var("ww".into()), t.clone()]))))),
+            ("lambda parameter, body with a use", format!("fn an() {{ fn(z: {tt}) {{ use w <- apply(z) w }} }}"), f(vec![], f(vec![t.clone()], t.clone()))),
             ("second lambda parameter", format!("fn an() {{ fn(y, z: {tt}) {{ #(y, z) }} }}"), f(vec![], f(vec![Var("zz".into()), t.clone()], Tuple(vec![Var("zz".into()), t.clone()])))),
             ("lambda return", format!("fn an() {{ fn(z) -> {tt} {{ z }} }}"), f(vec![], f(vec![t.clone()], t.clone()))),
             ("use binder", format!("fn an(q) {{ use z: {tt} <- apply(q) z }}"), f(vec![t.clone()], t.clone())),
@@ -1310,7 +1314,7 @@ fn annotations_layer(rep: &mut Report) {
             rep.violation(Violation { class: "function-type".into(), key: format!("annotation|{site}"), witness: json!({"annotation_site": site, "annotated_type": tt}), detail: format!("[annotation on {site}] {msg}") });
         }
     }
-    l.bound = format!("{} functions: 9 annotation sites (parameter, return, let, let of `todo`, lambda parameter applied / returned / second of two, lambda return, use binder) x 13 annotated types (scalars, list, tuple, function, Result, generic record, records, alias, type variables); the annotation alone determines the function's type", cases.len());
+    l.bound = format!("{} functions: 13 annotation sites (parameter, return, let, let of `todo`, lambda parameter applied / returned / second of two / with a body that binds by let, case, lambda or use, lambda return, use binder) x 13 annotated types (scalars, list, tuple, function, Result, generic record, records, alias, type variables); the annotation alone determines the function's type", cases.len());
     rep.layer(l);
 }
 
